@@ -212,6 +212,9 @@ pub fn build(
     is_vfunc: bool,
     function: &grammar::Function,
 ) -> Result<Option<Function>, anyhow::Error> {
+    if function.name.as_str() == "_" {
+        anyhow::bail!("`_` is not a name a function can have");
+    }
     let mut body = is_vfunc.then(|| FunctionBody::Vftable {
         function_name: function.name.0.clone(),
     });
